@@ -3,6 +3,7 @@ package main
 // Path exploration: decisions, forking by re-execution, obligations, findings.
 
 import (
+	"encoding/json"
 	"fmt"
 	"os"
 	"sort"
@@ -92,19 +93,20 @@ type Exec struct {
 	initDone map[*ssa.Package]bool
 	initing  bool
 
-	inputs   []inputRec
-	inputCnt map[string]int
-	freshCnt int
-	steps    int
-	stats    stats
-	funcs    map[string]int
-	findings []Finding
-	reached  map[string]bool
-	incon    []string
-	events   []string
-	trace    []string
-	samples  []string
-	ended    string
+	inputs    []inputRec
+	inputCnt  map[string]int
+	freshCnt  int
+	steps     int
+	stats     stats
+	funcs     map[string]int
+	findings  []Finding
+	reached   map[string]bool
+	incon     []string
+	events    []string
+	trace     []string
+	samples   []string
+	oblLabels []string
+	ended     string
 
 	mutexes      map[*Cell]*mutexState
 	wgs          map[*Cell]*wgState
@@ -222,6 +224,36 @@ func (e *Exec) addFinding(kind, label, msg string) {
 		fd.Trace = append([]string{}, e.trace[lo:]...)
 	}
 	e.findings = append(e.findings, fd)
+}
+
+// describePath: the completed path as a JSON object (witness inputs, decisions, obligations)
+func (e *Exec) describePath() string {
+	doc := map[string]interface{}{"harness": e.harness, "obligations_decided_on_this_path": e.oblLabels,
+		"ssa_instructions": e.stats.instrs, "symbolic_branch_decisions": len(e.decs)}
+	inputs := map[string]uint64{}
+	if r := e.sol.Check(nil); r == RSat {
+		var vars []*Term
+		for _, in := range e.inputs {
+			if !in.T.IsConst() {
+				vars = append(vars, in.T)
+			}
+		}
+		m := e.sol.Model(vars)
+		for i, in := range e.inputs {
+			if i >= 24 {
+				break
+			}
+			if in.T.IsConst() {
+				inputs[in.Name] = in.T.Val
+			} else if v, ok := m[in.T.Name]; ok {
+				inputs[in.Name] = v
+			}
+		}
+	}
+	e.sol.Pop()
+	doc["witness_inputs_of_this_path"] = inputs
+	b, _ := json.Marshal(doc)
+	return string(b)
 }
 
 func (e *Exec) nextDecision() *Decision {
@@ -465,6 +497,13 @@ func runPath(prog *Program, cfg *Config, sol *Solver, harness string, prefix []D
 	e.run()
 	// end of harness: the end of the path must be reachable (it is: pc is sat by construction)
 	e.reached["end:"+harness] = true
+	// one written-out case per harness for the evidence file: a concrete input on which this path
+	// runs (a model of its path condition) and the obligations that were decided on it
+	if shared != nil && len(e.samples) == 0 {
+		if _, dup := shared.LoadOrStore("sample|"+harness, true); !dup {
+			e.samples = append(e.samples, e.describePath())
+		}
+	}
 	return
 }
 
